@@ -197,6 +197,9 @@ func (e *Env) eval(x SExpr) SVal {
 	w := e.s.w
 	switch n := x.(type) {
 	case *SInt:
+		if n.Big != "" {
+			return SVal{t: Term{n.Big, "Int"}, gt: types.Typ[types.Int]}
+		}
 		return SVal{t: intLit(n.V), gt: types.Typ[types.Int]}
 	case *SBool:
 		return SVal{t: boolLit(n.V), gt: types.Typ[types.Bool]}
